@@ -50,7 +50,7 @@ inductive QueryErr (κ : Type) where
   | commodityNotFound (name : String)
   | evalFailed (e : EvalErr)
   | conversionFailure (e : ConvErr κ)
-  deriving Repr
+  deriving Repr, DecidableEq
 
 def liftConv {β} : Outcome (ConvErr κ) β → Outcome (QueryErr κ) β
   | .ok b => .ok b
